@@ -1,6 +1,7 @@
 #!/bin/bash
 # usage: seedrun.sh <seed dir name under /verif/seeded> [tier]  — applies the seeded change to /repo, runs the property's check, undoes it
 S=/verif/seeded/$1; T=${2:-quick}
+if [ -n "$(git -C /repo status --porcelain)" ]; then echo "/repo has uncommitted changes: commit them first (the undo step would discard them)"; exit 3; fi
 P=$(python3 -c "import json;print(json.load(open('$S/meta.json'))['property'])")
 git -C /repo apply $S/patch.diff 2>/dev/null || git -C /repo apply -C1 $S/patch.diff 2>/dev/null || (cd /repo && patch -p1 -F3 -s < $S/patch.diff) || exit 2
 (cd /verif && bin/vcheck check --property $P --tier $T) > /tmp/seedrun_$1.log 2>&1; RC=$?
